@@ -169,6 +169,7 @@ func VerifC17Revocation() {
 	}
 	var allIDs [][]byte
 	var prev [][]byte
+	var idsAtCreation [][][]byte
 	for j := 0; j <= N; j++ {
 		t := w.tokens[j]
 		ids := t.RevocationIds()
@@ -181,6 +182,7 @@ func VerifC17Revocation() {
 			vAssert(vBytesEq(ids[i], prev[i]), "C17.prefix-stable.append")
 		}
 		prev = ids
+		idsAtCreation = append(idsAtCreation, append([][]byte{}, ids...))
 		// independent decoding of the serialized envelope
 		data, err := t.Serialize()
 		vAssert(err == nil, "C17.serialize")
@@ -240,6 +242,16 @@ func VerifC17Revocation() {
 		allIDs = append(allIDs, twin.RevocationIds()...)
 	}
 	distinctSeeds()
+	// identifiers are stable: deriving siblings and twins changed nobody's identifiers
+	for j := 0; j <= N; j++ {
+		now := w.tokens[j].RevocationIds()
+		vAssert(len(now) == j+1, "C17.stable-after-derivations")
+		for i := range now {
+			if i < len(idsAtCreation[j]) {
+				vAssert(vBytesEq(now[i], idsAtCreation[j][i]), "C17.stable-after-derivations")
+			}
+		}
+	}
 	for i := range allIDs {
 		for j := 0; j < i; j++ {
 			vAssert(vNot(vBytesEq(allIDs[i], allIDs[j])), "C17.distinct")
@@ -293,7 +305,7 @@ func VerifC09Sealed() {
 		last = c.Blocks[len(c.Blocks)-1]
 	}
 	final := s.container.Proof.GetFinalSignature()
-	what := vChoose("tamper", 4)
+	what := vChoose("tamper", 5)
 	mod := &pb.SignedBlock{Block: last.Block, NextKey: &pb.PublicKey{Algorithm: last.NextKey.Algorithm, Key: last.NextKey.Key}, Signature: last.Signature}
 	switch what {
 	case 0:
@@ -317,11 +329,29 @@ func VerifC09Sealed() {
 			o = w.tokens[N].container.Blocks[0]
 		}
 		mod.Block = o.Block
-	default:
+	case 3:
 		vLabel("tamper=last-signature")
 		s3 := vWide("sig2", 64)
 		vAssume(vNot(vBytesEq(s3, last.Signature)))
 		mod.Signature = s3
+	default:
+		// a coordinated forgery by someone who holds the sealed token but no secret of the chain:
+		// last block swapped, own key announced, any signature, seal re-made with the own secret
+		vLabel("tamper=coordinated re-seal with an attacker key")
+		if j == 0 {
+			return // the authority block has no predecessor key to escape from
+		}
+		att := vWide("attacker", 32)
+		mod.Block = w.tokens[N].container.Authority.Block
+		mod.NextKey.Key = vPub(att)
+		mod.Signature = vWide("sig3", 64)
+		// unforgeability: without the previous block's secret the forger's signature is not a valid one
+		prevKey := s.container.Authority.NextKey.Key
+		if len(c.Blocks) >= 2 {
+			prevKey = c.Blocks[len(c.Blocks)-2].NextKey.Key
+		}
+		vAssume(vNot(vVerify(prevKey, cat(mod.Block, le32(0), mod.NextKey.Key), mod.Signature)))
+		final = vSig(att, cat(mod.Block, le32(0), mod.NextKey.Key, mod.Signature))
 	}
 	if len(c.Blocks) > 0 {
 		c.Blocks[len(c.Blocks)-1] = mod
